@@ -63,6 +63,53 @@ func implPruneRun(line string) string {
 	}
 	var st desync.PruneStore
 	var err error
+	if a["backend"] == "s3" {
+		// the same files as objects of a bucket in the in-process S3 service, below an optional prefix
+		f := newFakeS3()
+		defer f.Close()
+		prefix := string(unhx(a["prefix"]))
+		if a["files"] != "" {
+			for _, fl := range strings.Split(a["files"], ";") {
+				p := strings.Split(fl, "/")
+				d, n := string(unhx(p[0])), string(unhx(p[1]))
+				key := prefix + n
+				if d != "" {
+					key = prefix + d + "/" + n
+				}
+				f.put("bkt", key, []byte("x"))
+			}
+		}
+		f.put("bkt", "unrelated-"+prefix+"object", []byte("y")) // outside the prefix (or, without prefix, just another key)
+		ss, serr := f.chunkStore("bkt", prefix, desync.StoreOptions{Uncompressed: a["unc"] == "1"})
+		if serr != nil {
+			return "harness-error " + serr.Error()
+		}
+		return guard(func() string {
+			err := ss.Prune(context.Background(), keep)
+			var rem []string
+			other := false
+			for _, k := range f.keys("bkt", "") {
+				if strings.HasPrefix(k, "unrelated-") {
+					other = true
+					continue
+				}
+				k = strings.TrimPrefix(k, prefix)
+				d, n := "", k
+				if i := strings.LastIndex(k, "/"); i >= 0 {
+					d, n = k[:i], k[i+1:]
+				}
+				rem = append(rem, hx([]byte(d))+"/"+hx([]byte(n)))
+			}
+			sort.Strings(rem)
+			if !other {
+				return "removed-an-object-outside-the-prefix " + strings.Join(rem, ";")
+			}
+			if err != nil {
+				return "failed " + strings.Join(rem, ";")
+			}
+			return "ok " + strings.Join(rem, ";")
+		})
+	}
 	if a["backend"] == "sftp" {
 		// the same directory served over SFTP by the helper child (pkg/sftp's server on stdin/stdout)
 		w, werr := sftpWrapper(c16dir)
@@ -230,8 +277,12 @@ func runC16(cfg Config) {
 			backend = "sftp"
 			line += fmt.Sprintf(" backend=sftp n=%d", 1+rng.Intn(2))
 		}
+		if it%3 == 1 { // the same files as objects of an S3 bucket
+			backend = "s3"
+			line += " backend=s3 prefix=" + hx([]byte([]string{"", "pfx/", "a/b/"}[rng.Intn(3)]))
+		}
 		got := timed(implPruneRun, line)
-		if backend == "local" {
+		if backend == "local" || backend == "s3" {
 			rep.Compare(m, line, implPruneRun, nil)
 		} else if m.cmd != nil {
 			// the SFTP walk visits a directory in the server's (unsorted) order: when a removal fails, what
@@ -286,6 +337,12 @@ func runC16(cfg Config) {
 					monitor("prune deleted a file that is not a chunk of this store ("+e.kind+")", line, got)
 				}
 			case "tmp":
+				if backend == "s3" {
+					if !remaining[key] {
+						monitor("S3 prune deleted an object that is not a chunk of this store (tmp)", line, got)
+					}
+					break
+				}
 				if backend == "local" && remaining[key] && f[0] == "ok" {
 					monitor("prune reported success but left a temporary chunk file", line, got)
 				}
